@@ -252,6 +252,10 @@ def handle (line : String) : String :=
     match w.toNat?, nu.toNat?, nm.toNat?, nw.toNat? with
     | some w, some a, some b, some c => toString (TimeP.timeout w a b c)
     | _, _, _, _ => "bad-op"
+  | ["TOS", w, nu, nm, nw, _] =>     -- the clocks move on between readings: the time-out is taken from one reading, the first
+    match w.toNat?, nu.toNat?, nm.toNat?, nw.toNat? with
+    | some w, some a, some b, some c => toString (TimeP.timeout w a b c)
+    | _, _, _, _ => "bad-op"
   | ["TE", w, nu, nm, nw] =>
     match w.toNat?, nu.toNat?, nm.toNat?, nw.toNat? with
     | some w, some a, some b, some c => toString (TimeP.sinceEpoch w a b c)
